@@ -8,6 +8,8 @@ pub mod oracle;
 pub mod vx;
 pub mod pre;
 
+#[cfg(feature = "c03")]
+pub mod c03;
 #[cfg(feature = "c05")]
 pub mod c05;
 #[cfg(feature = "c09")]
@@ -16,6 +18,8 @@ pub mod c09;
 /// name -> harness function, for the native replay binary
 pub fn tables() -> Vec<&'static [(&'static str, fn())]> {
     let mut v: Vec<&'static [(&'static str, fn())]> = Vec::new();
+    #[cfg(feature = "c03")]
+    v.push(c03::TABLE);
     #[cfg(feature = "c05")]
     v.push(c05::TABLE);
     #[cfg(feature = "c09")]
